@@ -11,6 +11,12 @@
     [read_form h c = Ok f]: the version stored at [c] is 1.0 ([V1]) or 2.0 ([V2]). *)
 From JR Require Import Dispatch DispatchProofs DispatchTheorems Config ConfigProofs.
 
+(** the hypothesis [cfg_ok] of the theorems below holds for every Config of a well-formed heap *)
+Theorem C13_wf_heap_configs_ok : forall h c r,
+  heap_wf h = true -> lookup_loc c (h_cfgs h) = Some r -> cfg_ok h c = true.
+Proof. exact heap_wf_cfg_ok. Qed.
+Print Assumptions C13_wf_heap_configs_ok.
+
 (** (a) history-free: the reply to [p] after any history from any heap is the reply of the pure
     dispatcher for the version (and use_jsonclass flag) stored in the server's Config *)
 Theorem C13_reply_is_pure : forall body sigs h hs dm hist p f jc,
